@@ -132,3 +132,24 @@ Proof.
 Qed.
 Lemma scale_nonneg I f r : 0 <= scale_of I f r.
 Proof. apply sqrt_pos. Qed.
+
+(* ---------- TT-SVD / TR-SVD step: truncate U to r columns, reshape; the core is left-orthogonal *)
+Lemma tt_svd_core_left_orthogonal rk I k r (U : nat -> nat -> R) : orthonormal_cols (rk * I) k U -> (r <= k)%nat ->
+  forall b b', (b < r)%nat -> (b' < r)%nat ->
+  rsum rk (fun a => rsum I (fun i => core_of I U a i b * core_of I U a i b')) = delta b b'.
+Proof. intros H Hr. apply tt_core_left_orthogonal. now apply orthonormal_cols_truncate with (k := k). Qed.
+
+(* ---------- TR-SVD, first core: factor[a, i, b] = U[i, a * r1 + b] with U (I x r0 r1) having orthonormal columns *)
+Definition tr_first_core (r1 : nat) (U : nat -> nat -> R) : nat -> nat -> nat -> R := fun a i b => U i (a * r1 + b)%nat.
+Lemma pair_index_inj r1 a b a' b' : (b < r1)%nat -> (b' < r1)%nat -> (a * r1 + b = a' * r1 + b')%nat -> a = a' /\ b = b'.
+Proof. intros Hb Hb' E. assert (a = a') by nia. subst. split; [reflexivity | lia]. Qed.
+Lemma tr_first_core_orthonormal I r0 r1 (U : nat -> nat -> R) : orthonormal_cols I (r0 * r1) U ->
+  forall a b a' b', (a < r0)%nat -> (b < r1)%nat -> (a' < r0)%nat -> (b' < r1)%nat ->
+  rsum I (fun i => tr_first_core r1 U a i b * tr_first_core r1 U a' i b') = delta a a' * delta b b'.
+Proof.
+  intros H a b a' b' Ha Hb Ha' Hb'. unfold tr_first_core. rewrite H by nia.
+  unfold delta. destruct (Nat.eq_dec (a * r1 + b) (a' * r1 + b')) as [E|E].
+  - destruct (pair_index_inj r1 a b a' b' Hb Hb' E) as [-> ->].
+    destruct (Nat.eq_dec a' a'); [|congruence]. destruct (Nat.eq_dec b' b'); [ring | congruence].
+  - destruct (Nat.eq_dec a a') as [->|]; [|ring]. destruct (Nat.eq_dec b b') as [->|]; [congruence | ring].
+Qed.
